@@ -3,7 +3,7 @@
 From Coq Require Import String.
 From Coq Require Import ZArith List Bool Lia.
 From Coq Require Import Strings.Byte.
-From Cose Require Import Lib.Base Lib.Cbor Lib.GoSem Lib.GenTypes Model.GoVal Model.Wire Model.Key Model.MsgLogic Model.Msg Model.HdrSem Gen.LookupGen.
+From Cose Require Import Lib.Base Lib.Cbor Lib.GoSem Lib.GenTypes Model.GoVal Model.CborGo Model.Wire Model.Key Model.MsgLogic Model.Msg Model.HdrSem Gen.LookupGen.
 Import ListNotations.
 Open Scope Z_scope.
 
@@ -176,6 +176,33 @@ Theorem gen_with_sign_loop_is_sign_all ps ext pb payload : Forall signer_buckets
   sign_all ps pb ext payload
   = do l <- cose_SignMessage_WithSign_loop ps ext pb payload; match all_some (map enc_sigout l) with Some bs => Ok bs | None => Err end.
 Proof. intro F. rewrite gen_with_sign_loop. apply sign_all_is_entries, F. Qed.
+
+(* the per-signer buckets hold at most one integer / one byte string under a small integer label: their encodings never
+   fail, whatever the key, so the hypothesis above always holds *)
+Lemma signer_buckets_always_encodable p : signer_buckets_encodable p.
+Proof.
+  unfold signer_buckets_encodable, signer_protected, signer_unprotected. split.
+  - destruct (key_alg (sg_key p) =? 0); [cbn; discriminate|].
+    generalize (key_alg (sg_key p)); intro z.
+    unfold headers_bytes, enc_cosemap. cbn [check_labels].
+    replace (check_label (ilabel 1)) with (@Ok label (ilabel 1)) by (vm_compute; reflexivity).
+    replace (labels_dup [(ilabel 1, VInt KInt z)]) with false by reflexivity.
+    unfold marshal_any. cbn [item_of map opt_all option_map]. discriminate.
+  - destruct (kid (sg_key p)) as [|b r]; [cbn; discriminate|].
+    generalize (b :: r); intro kd.
+    unfold enc_cosemap. cbn [check_labels].
+    replace (check_label (ilabel 4)) with (@Ok label (ilabel 4)) by (vm_compute; reflexivity).
+    replace (labels_dup [(ilabel 4, VBytes kd)]) with false by reflexivity.
+    unfold marshal_any. cbn [item_of map opt_all option_map]. discriminate.
+Qed.
+
+Lemma all_signers_encodable ps : Forall signer_buckets_encodable ps.
+Proof. induction ps as [|p r IH]; constructor; [apply signer_buckets_always_encodable|exact IH]. Qed.
+
+Theorem gen_with_sign_loop_is_sign_all_total ps ext pb payload :
+  sign_all ps pb ext payload
+  = do l <- cose_SignMessage_WithSign_loop ps ext pb payload; match all_some (map enc_sigout l) with Some bs => Ok bs | None => Err end.
+Proof. apply gen_with_sign_loop_is_sign_all, all_signers_encodable. Qed.
 
 (* the statements that follow the loop install the wire struct and return: nothing else happens after the last signature *)
 Lemma with_sign_after_loop : cose_SignMessage_WithSign_after_loop = ["m.mm = mm"%string; "return nil"%string].
